@@ -120,6 +120,10 @@ theorem C02_offset {fs : Files} {lines : List Str} {a : Assembly} (h : assemble 
 
 /-! ### (c) symbols -/
 
+/-- the instruction table: an EQU-like row is not one of FCB / FDB / RMB / ORG, so its operand is never rewritten -/
+theorem pseudoDefine_not_data : ∀ r ∈ Gen.instructions, r.isPseudoDefine = true → isDataRow r = false := by
+  decide +kernel
+
 /-- what is needed of an EQU-like statement for "the label keeps the operand value": the operand is a pseudo
 operand (always the case for statements produced by `parseLine`) whose value is not a statement index -/
 def PseudoValueHyp (s : Stmt) : Prop := s.operand.kind = .pseudo ∧ s.operand.value.isAddress = false
@@ -148,7 +152,9 @@ theorem C02_symbols {fs : Files} {lines : List Str} {a : Assembly} (h : assemble
     · intro hpd hph
       obtain ⟨hkind, hna⟩ := hph
       have hpd0 : s0.row.isPseudoDefine = true := by rw [← hk.2]; exact hpd
-      have hop : s.operand = s0.operand := st.op05.2 i s0 s hs0 hs (Or.inr hkind)
+      have hdata : isDataRow s0.row = false :=
+        pseudoDefine_not_data s0.row (by rw [← hk.2]; exact st.row_mem hs) hpd0
+      have hop : s.operand = s0.operand := (st.op05.2 i s0 s hs0 hs).2 hdata (Or.inr hkind)
       simp only [hpd0, if_true] at hfin
       rw [← hop] at hfin
       rw [hv', ← hfin]
@@ -181,7 +187,7 @@ theorem C02_duplicate_label {fs : Files} {lines : List Str} {parsed ss0 : List S
 
 /-- What is proved of C02: the chain, the image as a concatenation, the symbols, rejection of duplicate
 labels; `C02_offset` is the conditional statement about offsets inside the image.
-Not claimed (known findings): the byte count of a statement equals its size; an ORG is first. -/
+The byte count of a statement equals its size: `Props/C02Size.lean`.  Not claimed (known finding): an ORG is first. -/
 theorem C02_partial :
     (∀ (fs : Files) (lines : List Str) (a : Assembly), assemble fs lines = .ok a →
         AddressChain a ∧ ImageConcat a ∧ SymbolsBound a PseudoValueHyp) ∧
@@ -193,16 +199,17 @@ theorem C02_partial :
 
 /-! ### the full statement does not hold -/
 
-/-- `LDA -100,X` has size 2 and emits 3 bytes (negative 8-bit offsets do not increase `size`) -/
+/-- `LDA -100,X`: formerly size 2 with 3 bytes emitted (negative 8-bit offsets did not increase `size`;
+`C02_size_counterexample`); after the repair the size is 3 -/
 def C02_sizeWitness : List Str := [" LDA -100,X\n"].map String.toList
 
 private def sizeCheck (a : Assembly) : Bool :=
   match a.stmts[0]? with
-  | some s => s.pkg.size == 2 && (stmtBytes s).map List.length == some 3
+  | some s => s.pkg.size == 3 && (stmtBytes s).map List.length == some 3
   | none => false
 
-theorem C02_size_counterexample :
-    ∃ a s, assemble [] C02_sizeWitness = .ok a ∧ a.stmts[0]? = some s ∧ s.pkg.size = 2 ∧
+theorem C02_size_fixed :
+    ∃ a s, assemble [] C02_sizeWitness = .ok a ∧ a.stmts[0]? = some s ∧ s.pkg.size = 3 ∧
       (stmtBytes s).map List.length = some 3 := by
   obtain ⟨a, ha, hchk⟩ := checkProgram_sound (lines := C02_sizeWitness) (check := sizeCheck) (by decide +kernel) []
   unfold sizeCheck at hchk
@@ -229,12 +236,12 @@ theorem C02_org_counterexample :
     exact ⟨a, s, ha, hs, by simpa using hchk⟩
   · cases hchk
 
+/-- `C02_Statement` does not hold: its clause "an ORG is the first statement" is violated by the ORG witness
+(the byte-count clause, formerly refuted by `LDA -100,X`, now holds: `Props/C02Size.lean`) -/
 theorem C02_Statement_false : ¬ C02_Statement := by
   intro hC
-  obtain ⟨a, s, ha, hs, hsz, hb⟩ := C02_size_counterexample
-  have hmem : s ∈ a.stmts := List.mem_of_getElem? hs
-  have := (hC [] _ a ha).2.2.2.1 s hmem
-  rw [hb, hsz] at this
+  obtain ⟨a, s, ha, hs, hm⟩ := C02_org_counterexample
+  have := (hC [] _ a ha).2.2.2.2.1 1 s hs hm
   cases this
 
 /-! ### non-vacuity -/
